@@ -5,6 +5,7 @@ import (
 	"go/ast"
 	"go/token"
 	"go/types"
+	"golang.org/x/tools/go/packages"
 	"os"
 	"path/filepath"
 	"regexp"
@@ -39,6 +40,100 @@ func goTyClass(s string) string {
 		return "ptr"
 	}
 	return "?" + s
+}
+
+// irTyClass classifies an expression of the generator that denotes an LLVM type, resolved through the type-checked
+// program: package-level and once-defined local variables are followed to their initialisers, llir's predefined types
+// are recognised by object, pointer constructors by callee. The source text decides only what cannot be resolved.
+func irTyClass(L *Loaded, fi *FuncInfo, e ast.Expr) string {
+	return irTyClassD(L, fi.Pkg, fi.Decl.Body, e, 0)
+}
+
+func irTyClassD(L *Loaded, pkg *packages.Package, body ast.Node, e ast.Expr, depth int) string {
+	info := pkg.TypesInfo
+	e = ast.Unparen(e)
+	if depth > 6 {
+		return goTyClass(L.Src(e))
+	}
+	switch x := e.(type) {
+	case *ast.Ident:
+		switch o := info.Uses[x].(type) {
+		case *types.Var:
+			if o.Pkg() != nil && o.Parent() == o.Pkg().Scope() {
+				// package-level variable of the repository: its initialiser
+				for _, p := range L.Pkgs {
+					if p.Types != o.Pkg() {
+						continue
+					}
+					for _, f := range p.Syntax {
+						for _, d := range f.Decls {
+							gd, ok := d.(*ast.GenDecl)
+							if !ok {
+								continue
+							}
+							for _, sp := range gd.Specs {
+								vs, ok := sp.(*ast.ValueSpec)
+								if !ok {
+									continue
+								}
+								for i, n := range vs.Names {
+									if p.TypesInfo.Defs[n] == o && i < len(vs.Values) && len(vs.Values) == len(vs.Names) {
+										return irTyClassD(L, p, nil, vs.Values[i], depth+1)
+									}
+								}
+							}
+						}
+					}
+				}
+			} else if body != nil {
+				if d := singleDef(info, body, o); d != nil {
+					return irTyClassD(L, pkg, body, d, depth+1)
+				}
+			}
+		}
+	case *ast.SelectorExpr:
+		if v, ok := info.Uses[x.Sel].(*types.Var); ok && v.Pkg() != nil && strings.HasSuffix(v.Pkg().Path(), "llir/llvm/ir/types") && !v.IsField() {
+			switch v.Name() {
+			case "I1":
+				return "i1"
+			case "I8":
+				return "i8"
+			case "I16":
+				return "i16"
+			case "I32":
+				return "i32"
+			case "I64":
+				return "i64"
+			case "Double":
+				return "double"
+			case "Float":
+				return "float"
+			case "Void":
+				return "void"
+			case "I8Ptr", "I1Ptr", "I16Ptr", "I32Ptr", "I64Ptr":
+				return "ptr"
+			}
+		}
+		if v, ok := info.Uses[x.Sel].(*types.Var); ok && v.IsField() && v.Name() == "ptr" {
+			return "ptr"
+		}
+	case *ast.CallExpr:
+		if fn := Callee(info, x); fn != nil {
+			switch fn.Name() {
+			case "ptr", "NewPointer", "PtrType":
+				return "ptr"
+			case "NewArray":
+				return "agg"
+			case "IrType":
+				if sel, ok := ast.Unparen(x.Fun).(*ast.SelectorExpr); ok {
+					if f := fieldOf(info, sel.X); f != nil && f.Name() == "void" {
+						return "void"
+					}
+				}
+			}
+		}
+	}
+	return goTyClass(L.Src(e))
 }
 
 func checkC18(c *Check) {
@@ -90,7 +185,7 @@ func checkC18(c *Check) {
 			}
 			var got []string
 			for _, a := range st.Args {
-				got = append(got, goTyClass(L.Src(a)))
+				got = append(got, irTyClass(L, fi, a))
 			}
 			nameArg := L.Src(call.Args[0])
 			var cstructs []string
@@ -163,11 +258,11 @@ func checkC18(c *Check) {
 			if !ok {
 				return true
 			}
-			ret := goTyClass(L.Src(call.Args[1]))
+			ret := irTyClass(L, fi, call.Args[1])
 			var params []string
 			for _, a := range call.Args[2:] {
 				if pc, ok := a.(*ast.CallExpr); ok && len(pc.Args) == 2 {
-					params = append(params, goTyClass(L.Src(pc.Args[1])))
+					params = append(params, irTyClass(L, fi, pc.Args[1]))
 				} else {
 					params = append(params, "?")
 				}
@@ -352,92 +447,132 @@ func checkConvention(c *Check, P *CProgram) {
 		c.rules[len(c.rules)-1].Decide(uses, "compiler.(*compiler)."+nm+"|return kind from IsPrimitive", fi.Decl.Pos(), "direct result vs. out-pointer is decided by IsPrimitive of the return type", "the return convention is no longer derived from IsPrimitive of the return type in "+nm)
 	}
 
-	// R18.5 caller frees of extern callees
-	r5 := c.Rule("R18.5", "after calling an extern function the caller frees every non-Referenz argument exactly once, indexed consistently with the out-pointer", 1)
-	if fi := L.Fn("src/compiler.(*compiler).VisitFuncCall"); fi != nil {
-		// the loop over the callee's parameters that calls freeNonPrimitive
-		var loop *ast.RangeStmt
-		ast.Inspect(fi.Decl.Body, func(n ast.Node) bool {
-			if rs, ok := n.(*ast.RangeStmt); ok && strings.Contains(L.Src(rs.X), "Parameters") {
-				has := false
-				ast.Inspect(rs.Body, func(k ast.Node) bool {
-					if call, ok := k.(*ast.CallExpr); ok {
-						if fn := Callee(info, call); fn != nil && fn.Name() == "freeNonPrimitive" {
-							has = true
-						}
-					}
-					return true
-				})
-				if has {
-					loop = rs
+	// R18.5 caller frees of extern callees: decided by evaluating VisitFuncCall (engine E2) on an extern callee whose
+	// Referenz parameter precedes a non-primitive value parameter, with a primitive and with a non-primitive result (the
+	// latter shifts the arguments by the out-pointer): after the call exactly the slot passed for the value parameter is
+	// released, once, and the Referenz argument's storage is not.
+	checkC18ExternFrees(c, L)
+}
+
+func checkC18ExternFrees(c *Check, L *Loaded) {
+	r5 := c.Rule("R18.5", "after calling an extern function the caller frees every non-Referenz argument exactly once, indexed consistently with the out-pointer", 2)
+	T := &DT{Kind: "TEXT"}
+	for _, ret := range []*DT{{Kind: "ZAHL"}, T} {
+		in, mk := newGeneratorInterp(L)
+		cfg := callCfg{level: 0, konst: false, extern: true, ret: ret}
+		decl := newObj("ast.FuncDecl")
+		mkParam := func(name string, ref bool) *Obj {
+			pn := newObj("token.Token")
+			pn.set("Literal", StrV(name))
+			pt := newObj("ddptypes.ParameterType")
+			pt.set("Type", TypeV{T})
+			pt.set("IsReference", boolV(ref))
+			p := newObj("ast.ParameterInfo")
+			p.set("Name", pn)
+			p.set("Type", pt)
+			return p
+		}
+		decl.set("Parameters", SliceV{Elems: []Val{mkParam("r", true), mkParam("v", false), mkParam("w", false)}})
+		decl.set("ReturnType", TypeV{cfg.ret})
+		callModels(in, &cfg, decl)
+		in.Models["ast.(*Ast).GetMetadataByKind"] = func(in *Interp, pkg *packages.Package, call *ast.CallExpr, recv Val, args []Val) (Val, bool) {
+			meta := newObj("annotators.ConstFuncParamMeta")
+			meta.set("IsConst", MapV{Keys: []Val{StrV("r"), StrV("v"), StrV("w")}, Vals: []Val{boolV(false), boolV(false), boolV(false)}})
+			return TupleV{meta, boolV(true)}, true
+		}
+		storage := &IRVal{Op: "operand", Src: "x", Class: "ptr", Elem: toGen(T)}
+		xdecl := newObj("ast.VarDecl")
+		xdecl.set("Type", TypeV{T})
+		in.Models["compiler.(*scope).lookupVar"] = func(in *Interp, pkg *packages.Package, call *ast.CallExpr, recv Val, args []Val) (Val, bool) {
+			w := newObj("varwrapper")
+			w.set("val", storage)
+			w.set("typ", toGen(T))
+			w.set("isRef", boolV(false))
+			return w, true
+		}
+		key := "compiler.(*compiler).VisitFuncCall|extern f(Referenz r, Text v, Text w) result=" + fmt.Sprint(toGen(ret))
+		runs := 0
+		var bad []string
+		in.RunAll(64, func() {
+			cobj := mk()
+			cobj.set("optimizationLevel", ConstV{V: constantInt(0), T: intType()})
+			fw := newObj("funcWrapper")
+			fw.set("funcDecl", decl)
+			fw.set("irFunc", &IRFuncV{Name: "callee"})
+			cobj.set("functions", MapV{Keys: []Val{StrV("f")}, Vals: []Val{fw}})
+			e := newObj("ast.FuncCall")
+			e.set("Func", decl)
+			ax := exprNode("x", T)
+			ax.Kind = "ast.Ident"
+			ax.set("Declaration", xdecl)
+			av := exprNode("argv", T)
+			av.set("temp", boolV(false))
+			aw := exprNode("argw", T)
+			aw.set("temp", boolV(true))
+			e.set("Args", MapV{Keys: []Val{StrV("r"), StrV("v"), StrV("w")}, Vals: []Val{ax, av, aw}})
+			in.CallFunc(L.Fn("src/compiler.(*compiler).VisitFuncCall"), cobj, []Val{e})
+			for _, ev := range in.Events {
+				if ev.Kind == "cerr" || ev.Kind == "panic" {
+					bad = append(bad, ev.Kind+": "+ev.Msg)
+					return
 				}
 			}
-			return true
+			strip := func(v Val) *IRVal {
+				iv, _ := v.(*IRVal)
+				for iv != nil && iv.Op == "bitcast" && len(iv.Args) == 1 {
+					iv = iv.Args[0]
+				}
+				return iv
+			}
+			var passed []*IRVal
+			called := false
+			freed := map[*IRVal]int{}
+			for _, ev := range in.Events {
+				switch {
+				case ev.Kind == "call" && ev.Msg == "callee":
+					called = true
+					for _, a := range ev.Data[1:] {
+						passed = append(passed, strip(a))
+					}
+				case ev.Kind == "call" && strings.HasSuffix(ev.Msg, ".FreeFunc") && called && len(ev.Data) >= 2:
+					if v := strip(ev.Data[1]); v != nil {
+						freed[v]++
+					}
+				}
+			}
+			if !called {
+				bad = append(bad, "no call emitted")
+				return
+			}
+			runs++
+			shift := 0
+			if ret.Kind == "TEXT" {
+				shift = 1
+			}
+			if len(passed) != 3+shift {
+				bad = append(bad, fmt.Sprintf("the call passes %d values, expected %d", len(passed), 3+shift))
+				return
+			}
+			rv, vv, wv := passed[shift], passed[shift+1], passed[shift+2]
+			if freed[rv] > 0 || freed[storage] > 0 {
+				bad = append(bad, "the storage handed over for the Referenz parameter is released after the call: the caller's variable dangles")
+			}
+			for nm, slot := range map[string]*IRVal{"v": vv, "w": wv} {
+				if freed[slot] != 1 {
+					bad = append(bad, fmt.Sprintf("the copy passed for the value parameter %s is released %d times after the call (expected once): with a Referenz parameter before a non-primitive value parameter the wrong argument is freed or the copy leaks", nm, freed[slot]))
+				}
+			}
+			if shift == 1 && freed[passed[0]] > 0 {
+				bad = append(bad, "the out-pointer of the result is released after the call")
+			}
 		})
-		if loop == nil {
-			r5.Bad("compiler.(*compiler).VisitFuncCall|extern argument frees", fi.Decl.Pos(), "no loop that frees the arguments of an extern callee after the call: every non-primitive argument copy leaks")
-		} else {
-			// shape: ranges over the parameters with index i; skips references (`IsReference`); frees args[i] or args[i+1] when a return slot was prepended
-			body := L.Src(loop.Body)
-			skipsRef := strings.Contains(body, "IsReference")
-			idxVar := ""
-			if id, ok := loop.Key.(*ast.Ident); ok {
-				idxVar = id.Name
-			}
-			overParams := strings.Contains(L.Src(loop.X), "Parameters") || strings.Contains(L.Src(loop.X), "params")
-			// the freed value is taken from args[i] (args[i+1] when a return slot was prepended): every assignment of the freed
-			// variable indexes `args` by an expression of the loop index
-			indexedByLoop, shifted := false, false
-			var freed types.Object
-			ast.Inspect(loop.Body, func(k ast.Node) bool {
-				if call, ok := k.(*ast.CallExpr); ok {
-					if fn := Callee(info, call); fn != nil && fn.Name() == "freeNonPrimitive" && len(call.Args) >= 1 {
-						if id, ok := ast.Unparen(call.Args[0]).(*ast.Ident); ok {
-							freed = info.Uses[id]
-						}
-						if ix, ok := ast.Unparen(call.Args[0]).(*ast.IndexExpr); ok && idxVar != "" && strings.Contains(L.Src(ix.Index), idxVar) {
-							indexedByLoop = true
-						}
-					}
-				}
-				return true
-			})
-			if freed != nil {
-				all, any := true, false
-				ast.Inspect(loop.Body, func(k ast.Node) bool {
-					as, ok := k.(*ast.AssignStmt)
-					if !ok || len(as.Lhs) != 1 || len(as.Rhs) != 1 {
-						return true
-					}
-					id, ok := as.Lhs[0].(*ast.Ident)
-					if !ok || (info.Defs[id] != freed && info.Uses[id] != freed) {
-						return true
-					}
-					if ix, ok := ast.Unparen(as.Rhs[0]).(*ast.IndexExpr); ok && L.Src(ix.X) == "args" && idxVar != "" && strings.Contains(L.Src(ix.Index), idxVar) {
-						any = true
-						if strings.Contains(L.Src(ix.Index), "+") {
-							shifted = true
-						}
-					} else if call, ok := as.Rhs[0].(*ast.CallExpr); ok && strings.Contains(L.Src(call), id.Name) {
-						// re-typing of the same value (bitcast)
-					} else {
-						all = false
-					}
-					return true
-				})
-				indexedByLoop = all && any && shifted
-			}
-			// any mutation of the args slice inside/before the loop (args = args[1:]) desynchronises indices
-			mutates := false
-			ast.Inspect(fi.Decl.Body, func(k ast.Node) bool {
-				if as, ok := k.(*ast.AssignStmt); ok && len(as.Lhs) == 1 && len(as.Rhs) == 1 {
-					if _, isSlice := as.Rhs[0].(*ast.SliceExpr); isSlice && L.Src(as.Lhs[0]) == "args" && as.Pos() > loop.Pos()-2000 && as.Pos() < loop.End() {
-						mutates = true
-					}
-				}
-				return true
-			})
-			r5.Decide(skipsRef && overParams && indexedByLoop && !mutates, "compiler.(*compiler).VisitFuncCall|extern argument frees", loop.Pos(), "loop over the parameters, Referenz skipped, freed argument indexed by the parameter index (+ out-pointer shift)", fmt.Sprintf("the post-call free loop of extern callees changed shape (over parameters: %v, skips Referenz: %v, indexed by the parameter index: %v, re-slices args: %v): with a Referenz parameter before a non-primitive value parameter the wrong argument is freed", overParams, skipsRef, indexedByLoop, mutates))
+		switch {
+		case len(bad) > 0:
+			r5.Bad(key, token.NoPos, strings.Join(uniq(bad), "; "))
+		case runs == 0:
+			r5.Und(key, token.NoPos, "call not observed")
+		default:
+			r5.OK(key, token.NoPos, fmt.Sprintf("%d evaluation(s): exactly the two copies passed by value are released once after the call; the Referenz storage and the out-pointer are not", runs))
 		}
 	}
 }
